@@ -555,6 +555,7 @@ func (c *Ctx) checkSignContext(regs []opReg) {
 	if n < 12 {
 		c.undecided("C06-SIGN", "canStartSignedNumberAfter", "operators", fd.Pos(), fmt.Sprintf("only %d binary operator spellings checked", n))
 	}
+	c.checkPrefixSignContext("C06-SIGN")
 }
 
 // checkOperandStackEnds: C06-STACK. Every site that pushes, pops or reads the
@@ -730,5 +731,100 @@ func (c *Ctx) checkSelectorReparse() {
 	})
 	if found == 0 {
 		c.undecided("C06-SEL", "normalizeArraySelector", "shortcut", fd.Pos(), "no length-guarded shortcut found; rule needs review")
+	}
+}
+
+// checkPrefixSignContext: the reader's prefix operators (% ^ ~ ~@) are followed
+// directly by their operand. A minus sign written there starts the operand
+// (~-1 is (unquote -1)); the lexer decides that from the rune before the sign,
+// so every rune that ends a prefix operator has to be in the sign-context set.
+// The prefix runes are taken from the lexer itself: the rune cases (and rune
+// comparisons) of LexNextRune whose code emits a prefix-operator token.
+func (c *Ctx) checkPrefixSignContext(rule string) {
+	fd := c.funcDecl("canStartSignedNumberAfter")
+	lx := c.funcDecl("Lexer.LexNextRune")
+	if fd == nil || lx == nil {
+		c.undecided(rule, "canStartSignedNumberAfter", "anchor", token.NoPos, "the lexer's sign-context predicate or its rune dispatcher was not found")
+		return
+	}
+	set := map[rune]bool{}
+	ast.Inspect(fd.Body, func(n ast.Node) bool {
+		cc, ok := n.(*ast.CaseClause)
+		if !ok {
+			return true
+		}
+		for _, e := range cc.List {
+			if tv := c.Zygo.TypesInfo.Types[e]; tv.Value != nil && tv.Value.Kind() == constant.Int {
+				if v, ok := constant.Int64Val(tv.Value); ok {
+					set[rune(v)] = true
+				}
+			}
+		}
+		return true
+	})
+	prefixTok := map[string]bool{"TokenQuote": true, "TokenCaret": true, "TokenTilde": true, "TokenTildeAt": true, "LexerUnquote": true}
+	mentions := func(stmts []ast.Stmt) string {
+		found := ""
+		for _, st := range stmts {
+			ast.Inspect(st, func(n ast.Node) bool {
+				// do not look into nested case clauses or ifs: the rune must be the one that emits the token
+				if id, ok := n.(*ast.Ident); ok && prefixTok[id.Name] && found == "" {
+					found = id.Name
+				}
+				return true
+			})
+		}
+		return found
+	}
+	isRune := func(e ast.Expr) (rune, bool) {
+		tv := c.Zygo.TypesInfo.Types[e]
+		if tv.Value == nil || tv.Value.Kind() != constant.Int {
+			return 0, false
+		}
+		if bl, ok := e.(*ast.BasicLit); !ok || bl.Kind != token.CHAR {
+			return 0, false
+		}
+		v, _ := constant.Int64Val(tv.Value)
+		return rune(v), true
+	}
+	prefix := map[rune]string{}
+	ast.Inspect(lx.Body, func(n ast.Node) bool {
+		switch x := n.(type) {
+		case *ast.CaseClause:
+			tok := ""
+			for _, e := range x.List {
+				if r, ok := isRune(e); ok {
+					if tok == "" {
+						tok = mentions(x.Body)
+					}
+					if tok != "" {
+						prefix[r] = tok
+					}
+				}
+			}
+		case *ast.IfStmt:
+			if be, ok := x.Cond.(*ast.BinaryExpr); ok && be.Op == token.EQL {
+				if r, ok := isRune(be.Y); ok {
+					if tok := mentions(x.Body.List); tok != "" {
+						prefix[r] = tok
+					}
+				}
+			}
+		}
+		return true
+	})
+	if len(prefix) < 4 {
+		c.undecided(rule, "Lexer.LexNextRune", "prefix operator runes", lx.Pos(), fmt.Sprintf("only %d runes that emit a prefix-operator token found (4 confirmed by reading: %% ^ ~ @)", len(prefix)))
+		return
+	}
+	var rs []rune
+	for r := range prefix {
+		rs = append(rs, r)
+	}
+	sort.Slice(rs, func(i, j int) bool { return rs[i] < rs[j] })
+	for _, r := range rs {
+		c.check(set[r], rule, "canStartSignedNumberAfter", "after prefix operator "+string(r), fd.Pos(),
+			"a minus sign directly after this prefix operator starts the operand",
+			fmt.Sprintf("the lexer does not treat %q (which emits %s) as a rune after which `-` starts a number: in %s-1 the minus is lexed as the operator symbol, the prefix operator wraps the function - and 1 stays behind as a separate element", string(r), prefix[r], string(r)))
 	}
 }
